@@ -855,10 +855,14 @@ func (fg *FuncGen) typeAssert(v *ssa.TypeAssert) {
 		fg.emitDef("%s", "Bool", "%s", okn, ok)
 		fg.emitDef("%s", "%s", "(ite %s %s %s)", valn, valSort, okn, val, g.Zero(at))
 		fg.val[v] = []TTerm{{S: valn, Sort: valSort, T: at}, {S: okn, Sort: "Bool"}}
+		if x.Sort == "Val" && fg.c != nil && fg.c.Measure != nil {
+			fg.assumeValHeight(at, x.S, valn, okn)
+		}
 		if x.Sort == "Iface" {
 			if _, isPtr := at.Underlying().(*types.Pointer); isPtr {
 				fg.assume("(=> " + okn + " (> " + valn + " 0))")
 				fg.assumeTypeInv(at, valn, okn)
+				fg.assumeASTHeight(v.X.Type(), at, x.S, valn, okn)
 			}
 		}
 		return
@@ -1078,3 +1082,76 @@ func (fg *FuncGen) carrierObligations(v *ssa.MakeInterface, xt types.Type, x TTe
 		fg.obl("finite", "", v.Pos(), tags, "(=> c18.ih (and (not (f64.isnan "+x.S+")) (not (f64.isinf "+x.S+"))))", "a float64 result is finite when every value received is")
 	}
 }
+
+// assumeASTHeight (assumption A8, listed in the evidence): the AST is a finite tree, so there is a height function
+// on nodes under which every node stored in a field of a node lies strictly below it.  Assumed where a parser.Node
+// is found to be a *T: for each field of T that holds a Node, a []Node or a map[string]Node.
+func (fg *FuncGen) assumeASTHeight(ifaceT, at types.Type, iface, ref, cond string) {
+	if !isNodeType(ifaceT) || !heightAssumptions {
+		return
+	}
+	pt, ok := at.Underlying().(*types.Pointer)
+	if !ok {
+		return
+	}
+	st, ok := pt.Elem().Underlying().(*types.Struct)
+	if !ok {
+		return
+	}
+	g := fg.g
+	g.usedASTHeight = true
+	for i := 0; i < st.NumFields(); i++ {
+		ft := st.Field(i).Type()
+		fld := "(select " + fg.famIn(fg.st, g.FieldFamily(pt.Elem(), i)) + " " + ref + ")"
+		switch u := ft.Underlying().(type) {
+		case *types.Interface:
+			if isNodeType(ft) {
+				fg.assume(fmt.Sprintf("(=> %s (< (nheight %s) (nheight %s)))", cond, fld, iface))
+			}
+		case *types.Slice:
+			if isNodeType(u.Elem()) {
+				el := fmt.Sprintf("(%s %s %s k!h)", gatName("Iface"), fg.famIn(fg.st, g.SeqFamily("Iface")), fld)
+				fg.assume(fmt.Sprintf("(=> %s (forall ((k!h Int)) (! (=> (and (<= 0 k!h) (< k!h (slen %s))) (< (nheight %s) (nheight %s))) :pattern (%s))))", cond, fld, el, iface, el))
+			}
+		case *types.Array:
+			if isNodeType(u.Elem()) {
+				for k := int64(0); k < u.Len() && k < 16; k++ {
+					fg.assume(fmt.Sprintf("(=> %s (< (nheight (select %s %d)) (nheight %s)))", cond, fld, k, iface))
+				}
+			}
+		case *types.Map:
+			if isNodeType(u.Elem()) {
+				vf, df, _ := g.MapFamilies("Iface")
+				el := fmt.Sprintf("(select (select %s %s) k!h)", fg.famIn(fg.st, vf), fld)
+				fg.assume(fmt.Sprintf("(=> %s (forall ((k!h Int)) (! (=> (select (select %s %s) k!h) (< (nheight %s) (nheight %s))) :pattern (%s))))", cond, fg.famIn(fg.st, df), fld, el, iface, el))
+			}
+		}
+	}
+}
+
+// assumeValHeight (assumption, listed in the evidence; the properties quantify over trees of values): a data value
+// is a finite tree, so the elements of an array and the members of an object lie strictly below it under a height
+// function.  Assumed where an `any` is found to be a []any or a map[string]any, in functions under a `measure`.
+func (fg *FuncGen) assumeValHeight(at types.Type, val, inner, cond string) {
+	if !heightAssumptions {
+		return
+	}
+	g := fg.g
+	switch u := at.Underlying().(type) {
+	case *types.Slice:
+		if isAny(u.Elem()) {
+			el := fmt.Sprintf("(%s %s %s k!h)", gatName("Val"), fg.famIn(fg.st, g.SeqFamily("Val")), inner)
+			fg.assume(fmt.Sprintf("(=> %s (forall ((k!h Int)) (! (=> (and (<= 0 k!h) (< k!h (slen %s))) (< (vheight %s) (vheight %s))) :pattern (%s))))", cond, inner, el, val, el))
+		}
+	case *types.Map:
+		if isAny(u.Elem()) {
+			vf, df, _ := g.MapFamilies("Val")
+			el := fmt.Sprintf("(select (select %s %s) k!h)", fg.famIn(fg.st, vf), inner)
+			fg.assume(fmt.Sprintf("(=> %s (forall ((k!h Int)) (! (=> (select (select %s %s) k!h) (< (vheight %s) (vheight %s))) :pattern (%s))))", cond, fg.famIn(fg.st, df), inner, el, val, el))
+		}
+	}
+}
+
+// heightAssumptions: the finite-tree assumptions are made only in the run that checks termination (C09); the other
+// properties are proved without them
+var heightAssumptions bool
